@@ -61,7 +61,7 @@ class ModeAggregator(Aggregator):
 
         self._np = np
         is_masked = False
-        if all(isinstance(pred, np.ma.MaskedArray) for pred in y):
+        if any(isinstance(pred, np.ma.MaskedArray) for pred in y):
             self._np = np.ma
             is_masked = True
 
